@@ -347,6 +347,117 @@ def fields_suite(res, rng, tier):
                                    observed=o, what=o))
 
 
+
+# ---- the same on decorated functions: positional-only / keyword parameters, typed *args and **kwargs ----
+FN_T = {"int": ([5, "5"], ["x!"]), "PositiveInt": ([5, "7"], [-5, "x!", 0]), "List[int]": ([[1, "2"], []], [["a"], "x!"]),
+        "Optional[int]": ([None, 5], ["x!"])}
+
+
+def functions_case(i_seed):
+    """one signature, declared once fail-fast and once collecting (with an optional cap); one call whose arguments are each valid
+    or invalid by construction: same verdict, same received values, and the collected error names exactly the invalid arguments
+    (parameters by name, variadic ones as *args:<index> / **kw:<key>), each once, at most max_errors of them"""
+    import utype
+    from utype.utils import exceptions as exc
+    warnings.simplefilter("ignore")
+    rng = random.Random(i_seed)
+    n_po = rng.randint(1, 3)
+    has_d = rng.random() < 0.6
+    vt = rng.choice([None, "int", "PositiveInt", "List[int]", "Optional[int]"])
+    has_kw = rng.random() < 0.4
+    me = rng.choice([None, None, 1, 2, 3])
+    names = "abc"[:n_po]
+    sig = ", ".join("%s: int" % c for c in names) + ", /"
+    if has_d:
+        sig += ", d: int = 0"
+    if vt:
+        sig += ", *args: %s" % vt
+    elif True:
+        sig += ", *"
+    sig += ", e: int = 0"
+    if has_kw:
+        sig += ", **kw: int"
+    tag = dyn.fresh("Cf")
+    body = "    return dict(locals())\n"
+    src = ("@utype.parse\ndef %s_ff(%s):\n%s@utype.parse(options=Options(collect_errors=True%s))\ndef %s_co(%s):\n%s"
+           % (tag, sig, body, ", max_errors=%d" % me if me else "", tag, sig, body))
+    try:
+        dyn.declare(src)
+    except Exception as e:
+        return None
+    ff, co = dyn.get(tag + "_ff"), dyn.get(tag + "_co")
+    args, kwargs, failing = [], {}, []
+
+    def pick(t, item):
+        good, bad = FN_T[t]
+        if rng.random() < 0.3:
+            failing.append(item)
+            return rng.choice(bad)
+        return rng.choice(good)
+    for c in names:
+        args.append(pick("int", c))
+    give_d = has_d and rng.random() < 0.7
+    if give_d:
+        args.append(pick("int", "d"))
+    if vt and (give_d or not has_d):
+        for _ in range(rng.randint(0, 3)):
+            args.append(pick(vt, "*args:%d" % len(args)))
+    if rng.random() < 0.6:
+        kwargs["e"] = pick("int", "e")
+    if has_kw and rng.random() < 0.6:
+        k = rng.choice(["z", "y"])
+        kwargs[k] = pick("int", "**kw:%s" % k)
+    out = []
+    for f in (ff, co):
+        try:
+            out.append(("ok", f(*args, **kwargs)))
+        except exc.CollectedParseError as e:
+            out.append(("collected", [getattr(x, "item", None) for x in e.errors]))
+        except exc.ParseError as e:
+            out.append(("parse", getattr(e, "item", None)))
+        except Exception as e:
+            out.append(("other", type(e).__name__, str(e)[:100]))
+    r_ff, r_co = out
+    where = "\n-- declaration --\n%s-- call --\nargs=%r kwargs=%r (invalid by construction: %r)" % (src, args, kwargs, failing)
+    if r_ff[0] == "other" or r_co[0] == "other":
+        return "a non-ParseError escaped: %r" % (out,) + where
+    if (r_ff[0] == "ok") != (not failing):
+        return "fail-fast verdict %r with invalid arguments %r" % (r_ff, failing) + where
+    if (r_co[0] == "ok") != (r_ff[0] == "ok"):
+        return "verdict differs: fail-fast %r, collecting %r" % (r_ff, r_co) + where
+    if r_ff[0] == "ok":
+        return None if r_ff[1] == r_co[1] else "values differ: fail-fast %r, collecting %r" % (r_ff[1], r_co[1]) + where
+    if r_co[0] != "collected":
+        return "collecting mode did not raise one collected error: %r" % (r_co,) + where
+    items = r_co[1]
+    if me and len(items) > me:
+        return "%d errors reported with max_errors=%d: %r" % (len(items), me, items) + where
+    if any(i not in failing for i in items):
+        return "an item that is not an invalid argument is reported: %r (invalid: %r)" % (items, failing) + where
+    if len(set(items)) != len(items):
+        return "an item is reported twice: %r" % (items,) + where
+    if (not me or len(failing) < me) and sorted(items) != sorted(failing):
+        return "reported items %r differ from the invalid arguments %r" % (items, failing) + where
+    if me and len(failing) >= me and len(items) != me:
+        return "%d items reported with %d invalid arguments and max_errors=%d" % (len(items), len(failing), me) + where
+    return ("checked", r_ff[0])
+
+
+def functions_suite(res, tier, seed):
+    n = 1500 if tier == "quick" else 30000
+    outs = core.pool_map(functions_case, [seed * 5000011 + i for i in range(n)])
+    bad = [o for o in outs if isinstance(o, str)]
+    rejected = sum(1 for o in outs if o == ("checked", "parse"))
+    res.add_suite("collect-functions", n, sum(1 for o in outs if isinstance(o, tuple)),
+                  [dict(signature="def f(a: int, b: int, /, d: int = 0, *args: PositiveInt, e: int = 0, **kw: int)", call="f(1, 'x!', 3, -5, e='x!')",
+                        expect="items b, *args:3, e")],
+                  "decorated functions with 1-3 positional-only parameters, an optional defaulted one, typed *args (int / PositiveInt / "
+                  "List[int] / Optional[int]), a keyword-only one and typed **kw; every argument valid or invalid by construction; "
+                  "fail-fast vs collecting (cap None/1/2/3): verdict, received values, reported items == invalid arguments, once each",
+                  dict(failures=len(bad), rejected_calls=rejected))
+    for m in bad[:3]:
+        res.violations.append(dict(case=repr(dict(kind="collect-functions")), observed=m, what=m.split("\n")[0]))
+
 def main(tier, seed):
     warnings.simplefilter("ignore")
     res = core.Result(PID, tier, seed)
@@ -391,6 +502,7 @@ def main(tier, seed):
                                    observed=repr(o), what=msg))
     fields_suite(res, rng, tier)
     shapes_suite(res, tier, seed)
+    functions_suite(res, tier, seed)
     return core.finish(res, "make -C coq Props/C10.vo && coqc (Print Assumptions audit)", "see suites", search=None,
                        level_note="C10_same_verdict_and_value is proved for every declared type of the parse calculus (simulation between the "
                                   "fail-fast and the collecting run, construct by construct, tied by induction on the fuel); for data-class field "
